@@ -1,0 +1,116 @@
+//! Verification hooks (cargo feature `verif`).
+//!
+//! Nothing in this file is compiled unless the `verif` feature is enabled.
+//! The hooks give an external harness:
+//!  * a callback at every instruction boundary and around every collection,
+//!  * the ability to force a collection at an instruction boundary,
+//!  * counters (instructions started, maximal stack pointer, collections),
+//!  * read-only access to the registers, stack, heap cells, collector state,
+//!    free list, symbol table and global environment.
+use crate::vm::Vm;
+use crate::vm::environment::GlobalEnvironment;
+use crate::vm::heap::Heap;
+use crate::vm::stack::Stack;
+use crate::vm::vcell::VCell;
+use std::fmt::{Debug, Formatter};
+
+#[derive(Debug, Clone, Copy, Eq, PartialEq)]
+pub enum VerifEvent {
+    /// An instruction is about to execute. A hook returning `true` forces a
+    /// collection at this boundary.
+    Step,
+    /// A collection passed the utilisation test (or was forced); nothing marked yet.
+    GcPre { forced: bool },
+    /// Mark and sweep are done; the growth decision is not yet taken.
+    GcPost { forced: bool },
+    /// The collection (including the growth decision) is complete.
+    GcDone { forced: bool },
+}
+
+pub type VerifHook = Box<dyn FnMut(&Vm, VerifEvent) -> bool>;
+
+#[derive(Default)]
+pub struct VerifState {
+    /// Instructions started since the counter was last reset.
+    pub instr: u64,
+    /// Maximal stack pointer seen at an instruction boundary since last reset.
+    pub max_sp: usize,
+    /// Collections that passed the utilisation test (or were forced).
+    pub collections: u64,
+    /// When set, `run_gc` skips its utilisation test.
+    pub force_gc: bool,
+    pub hook: Option<VerifHook>,
+}
+
+impl Debug for VerifState {
+    fn fmt(&self, f: &mut Formatter<'_>) -> std::fmt::Result {
+        write!(
+            f,
+            "VerifState {{ instr: {}, max_sp: {}, collections: {} }}",
+            self.instr, self.max_sp, self.collections
+        )
+    }
+}
+
+impl Vm {
+    pub(crate) fn verif_emit(&mut self, ev: VerifEvent) -> bool {
+        match self.verif.hook.take() {
+            Some(mut hook) => {
+                let r = hook(self, ev);
+                if self.verif.hook.is_none() {
+                    self.verif.hook = Some(hook);
+                }
+                r
+            }
+            None => false,
+        }
+    }
+
+    /// Called by `run_count` immediately before an instruction executes.
+    pub(crate) fn verif_step(&mut self) {
+        self.verif.instr += 1;
+        let sp = self.stack.get_sp();
+        if sp > self.verif.max_sp {
+            self.verif.max_sp = sp;
+        }
+        if self.verif.hook.is_some() && self.verif_emit(VerifEvent::Step) {
+            self.verif_force_gc();
+        }
+    }
+
+    /// Run a collection now regardless of heap utilisation.
+    pub fn verif_force_gc(&mut self) {
+        let saved = self.verif.force_gc;
+        self.verif.force_gc = true;
+        self.run_gc();
+        self.verif.force_gc = saved;
+    }
+
+    pub fn verif_reset_counters(&mut self) {
+        self.verif.instr = 0;
+        self.verif.max_sp = self.stack.get_sp();
+        self.verif.collections = 0;
+    }
+
+    pub fn verif_acc(&self) -> &VCell {
+        &self.acc
+    }
+    pub fn verif_ep(&self) -> usize {
+        self.ep
+    }
+    pub fn verif_ip(&self) -> (usize, usize) {
+        self.ip
+    }
+    pub fn verif_bp(&self) -> usize {
+        self.bp
+    }
+    pub fn verif_stack(&self) -> &Stack {
+        &self.stack
+    }
+    pub fn verif_heap(&self) -> &Heap {
+        &self.heap
+    }
+    pub fn verif_globenv(&self) -> &GlobalEnvironment {
+        &self.globenv
+    }
+}
